@@ -58,6 +58,19 @@ class Ctx:
         """Deterministic partition of an enumerated space over shards."""
         return index % self.nshards == self.shard
 
+    def skip(self, index: int, stride: typing.Any) -> bool:
+        """Sub-sampling of an enumerated space (keep about 1/stride of the indices this shard owns).  The decision is a hash of
+        the index and the seed, not index arithmetic: a stride that divides the size of an inner loop would otherwise
+        leave the same inner positions out for ever (and different seeds now look at different subsets)."""
+        stride = int(stride)
+        if stride <= 1:
+            return False
+        h = (index * 0x9E3779B1 + (self.seed + 1) * 0x85EBCA6B) & 0xFFFFFFFF
+        h ^= h >> 15
+        h = (h * 0x2C1B3C6D) & 0xFFFFFFFF
+        h ^= h >> 12
+        return h % stride != 0
+
     def elapsed(self) -> float:
         return time.monotonic() - self.t0
 
